@@ -29,7 +29,7 @@ ASSUMPTIONS = [
     "in the sweep path the offending run must raise before any of its models executes",
 ]
 COMPONENTS = {"real": ["pyxel.load / configuration builders", "Geometry / Environment / Characteristics / APDCharacteristics validation", "Readout and ParameterValues expression evaluation", "Observation sweep path"], "stub": []}
-BUDGET = {"quick": {"n": 960, "wall": 100, "determinism": 4}, "thorough": {"n": 72000, "wall": 1500, "determinism": 12}}
+BUDGET = {"quick": {"n": 960, "wall": 100, "determinism": 4}, "thorough": {"n": 120000, "wall": 1500, "determinism": 12}}
 REQUIRED_REACH = ["kind:derived", "derived_compared", "derived_refused_by_constructor", "derived_path:sweep", "derived_path:attribute", "derived_path:key", "derived:common_voltage", "kind:twin", "kind:count", "kind:range", "twin:exposure", "twin:observation", "numpy_expression", "count:no-mode", "count:two-modes", "count:no-detector", "count:two-detectors", "path:sweep_rejects", "anchor_checked", "class:boundary", "class:beyond", "class:far", "class:sign"] + [f"type:{t}" for t in world.DET_TYPES]
 
 # field -> (section, low, high, integer?)  -- ranges only used to *generate* interesting values
